@@ -20,8 +20,8 @@ import (
 func init() { register("feestore", feestoreCmd) }
 
 var (
-	tPast   = time.Date(2000, 1, 1, 0, 0, 0, 0, time.UTC)
-	tFuture = time.Date(2100, 1, 1, 0, 0, 0, 0, time.UTC)
+	tPast        = time.Date(2000, 1, 1, 0, 0, 0, 0, time.UTC)
+	tFuture      = time.Date(2100, 1, 1, 0, 0, 0, 0, time.UTC)
 	feeTypeNames = []string{"standard", "data", "other", ""}
 )
 
